@@ -41,6 +41,10 @@ struct Spec {
     /// functions to values built from these variants)
     #[serde(default)]
     enum_subset: BTreeMap<String, Vec<String>>,
+    /// opaque calls without arguments whose value is one constant of the run (`get_num_cpus`): they may
+    /// occur any number of times and are handed on by callers as the same input
+    #[serde(default)]
+    opaque_consts: Vec<String>,
     /// cargo features that are on (`cfg(feature = "x")` is false for every other x)
     #[serde(default)]
     cfg_features: Vec<String>,
@@ -66,6 +70,34 @@ struct Request {
     /// tail_match: the text the scrutinee of the wanted `match` starts with
     #[serde(default)]
     scrutinee: Option<String>,
+    /// local_value: which expression: {"call": name, "arg": i [, "recv_contains": text]} |
+    /// {"let": name} | {"field": [StructName, field]}
+    #[serde(default)]
+    of: Option<serde_json::Value>,
+    /// local_value: the Rust type of the value (optional hint)
+    #[serde(default)]
+    ty: Option<String>,
+    /// after_call / call_trace: the name of the call
+    #[serde(default)]
+    call: Option<String>,
+    /// after_call: the arm of the function's final `match` to look in (text its pattern starts with)
+    #[serde(default)]
+    arm: Option<String>,
+    /// loop_tail: the enum whose variants are the events a branch sends
+    #[serde(default)]
+    events: Option<String>,
+    /// guard_prefix: the statement a guard ends the block with ("continue" | "return false")
+    #[serde(default)]
+    exit: Option<String>,
+    /// guard_prefix: the guards are at the head of the body of the `for` loop over this pattern
+    #[serde(default)]
+    in_loop: Option<String>,
+    /// call_trace: local names of the object whose method calls are recorded
+    #[serde(default)]
+    receivers: Vec<String>,
+    /// call_trace: functions / methods whose body is followed when a receiver is handed to them
+    #[serde(default)]
+    inline: Vec<String>,
 }
 
 // ---------------------------------------------------------------------------------------- errors
@@ -441,8 +473,14 @@ struct FnInfo {
     params: Vec<Ty>,
     ret: Ty,
     /// the function has inputs that are not Rust parameters (opaque calls) or parameters that are
-    /// not translated: it cannot be called from another translated function
+    /// not translated
     partial: bool,
+    /// some Rust parameter is not translated: the function cannot be called from another
+    /// translated function
+    untranslated: bool,
+    /// opaque inputs (callee key, parameter name, type) in the order of the extra parameters; a
+    /// caller hands them on as inputs of its own
+    opaque: Vec<(String, String, Ty)>,
 }
 
 #[derive(Clone, Debug)]
@@ -461,6 +499,9 @@ struct Env {
     globs: Vec<String>,
     self_ty: Option<String>,
     mutating: bool,
+    /// a `let mut x = <record>` that is threaded like `self` in a `&mut self` method: (rust name,
+    /// struct name)
+    local_state: Option<(String, String)>,
     ret: Option<Ty>,
 }
 
@@ -507,3 +548,4 @@ include!("../decisions/types.rs");
 include!("../decisions/expr.rs");
 include!("../decisions/stmt.rs");
 include!("../decisions/driver.rs");
+include!("../decisions/scoped.rs");
